@@ -185,7 +185,9 @@ def exec (P : Prims σ α) (c : Call α) (g : σ) : Out α × σ :=
   | .pickFromCumSum w =>
     if w.isEmpty then (.index (.error .empty), g)
     else let (u, g') := P.uReal (Scalar.ofInt 1) g; (.index (Rand.pickFromCumSum w u), g')
-  | .randMultinomial n probs => let (us, g') := drawUnits P n g; (.nats (Rand.randMultinomial probs n us), g')
+  | .randMultinomial n probs =>
+    if Rand.multinomialRaises probs n then (.nats (.error .bpp), g)      -- raises before drawing
+    else let (us, g') := drawUnits P n g; (.nats (Rand.randMultinomial probs n us), g')
   | .discreteRand dist => let (u, g') := P.uReal (Scalar.ofInt 1) g; (.scalar (Rand.dRand dist u), g')
   | .hmmSample eq rows size => let (us, g') := drawUnits P size g; (.nats (Rand.hmmSample eq rows size us), g')
   | .rcont2 rows cols => let (t, g') := rcont2G P rows cols g; (.table t, g')
